@@ -277,18 +277,90 @@ class _SearchTr:
         self.nv = name_var
         self.where = where
         self.snapshots = True
+        # round 5: plain lookups `self.by_X.get(name[, <empty default>])`, possibly bound to a local or chained with `or`.
+        # locals: name -> atom; an atom is ('t'|'c', default_is_iterable).  known: atoms known not to be None on this path
+        self.locals: dict[str, tuple[str, bool]] = {}
+        self.known: set[str] = set()
 
     def is_name(self, e: ast.expr) -> bool:
         return isinstance(e, ast.Name) and e.id == self.nv
 
-    def block(self, stmts: list[ast.stmt]) -> str:
+    # -- plain lookups (round 5)
+    def atom(self, e: ast.expr) -> tuple[str, bool] | None:
+        if isinstance(e, ast.Name) and e.id in self.locals:
+            return self.locals[e.id]
+        if isinstance(e, ast.Call) and isinstance(e.func, ast.Attribute) and e.func.attr == 'get' and _self_index(e.func.value) \
+                and not e.keywords and 1 <= len(e.args) <= 2 and self.is_name(e.args[0]):
+            iterable = False
+            if len(e.args) == 2:
+                d = e.args[1]
+                if isinstance(d, ast.Constant) and d.value is None:
+                    iterable = False
+                elif (isinstance(d, (ast.Tuple, ast.List)) and not d.elts) or (isinstance(d, ast.Constant) and d.value == '') or (
+                        isinstance(d, ast.Call) and isinstance(d.func, ast.Name) and d.func.id in ('set', 'frozenset', 'tuple', 'list')
+                        and not d.args and not d.keywords):
+                    iterable = True        # an empty collection: falsy, and `yield from` it yields nothing
+                else:
+                    return None
+            return ('t' if _self_index(e.func.value) == 'by_target' else 'c', iterable)
+        return None
+
+    def alts(self, e: ast.expr) -> list[tuple[str, bool]] | None:
+        """`A or B or ...` over plain lookups: the first one that is truthy, else the last."""
+        if isinstance(e, ast.BoolOp) and isinstance(e.op, ast.Or):
+            out = [self.atom(v) for v in e.values]
+            return None if any(a is None for a in out) else out   # type: ignore[return-value]
+        a = self.atom(e)
+        return None if a is None else [a]
+
+    @staticmethod
+    def ne(a: tuple[str, bool]) -> str:
+        return 'CNeTarget' if a[0] == 't' else 'CNeClass'
+
+    def under(self, a: tuple[str, bool] | None, f):
+        """run f() on a path where lookup `a` is known not to be None; bindings made inside do not leak"""
+        saved = (dict(self.locals), set(self.known))
+        if a is not None:
+            self.known.add(a[0])
+        try:
+            return f()
+        finally:
+            self.locals, self.known = saved
+
+    def yield_get(self, a: tuple[str, bool], w: str) -> str:
+        if not (a[1] or a[0] in self.known):
+            raise TranslateError(f'{w}: `yield from` a .get() lookup that may be None')
+        return 'PYieldGetTarget' if a[0] == 't' else 'PYieldGetClass'
+
+    def block(self, stmts: list[ast.stmt], top: bool = False) -> str:
         if not stmts:
             return 'PSkip'
-        out = [self.stmt(s) for s in stmts]
-        acc = out[-1]
-        for x in reversed(out[:-1]):
-            acc = f'(PSeq {x} {acc})'
-        return acc
+        st, rest = stmts[0], stmts[1:]
+        if isinstance(st, ast.AnnAssign) and st.value is not None:
+            st = ast.Assign(targets=[st.target], value=st.value, lineno=st.lineno)
+        if isinstance(st, ast.Assign) and len(st.targets) == 1 and isinstance(st.targets[0], ast.Name) and st.targets[0].id != self.nv:
+            w = f'{self.where}:{st.lineno}'
+            al = self.alts(st.value)
+            if al is None or not top:
+                raise TranslateError(f'{w}: unrecognised assignment {ast.unparse(st)[:80]}')
+            x = st.targets[0].id
+
+            def bind(al: list[tuple[str, bool]]) -> str:
+                # x = A or B: on the path where A is truthy x is A, otherwise x is (B or ...)
+                def cont(a: tuple[str, bool]):
+                    def go() -> str:
+                        self.locals[x] = a
+                        return self.block(rest, top)
+                    return go
+                if len(al) == 1:
+                    return self.under(None, cont(al[0]))
+                yes = self.under(al[0], cont(al[0]))
+                return f'(PIf {self.ne(al[0])} {yes} {bind(al[1:])})'
+            return bind(al)
+        a = self.stmt(st)
+        if not rest:
+            return a
+        return f'(PSeq {a} {self.block(rest, top)})'
 
     def stmt(self, st: ast.stmt) -> str:
         w = f'{self.where}:{st.lineno}'
@@ -298,8 +370,37 @@ class _SearchTr:
             v = st.value.value
             if isinstance(v, ast.Subscript) and _self_index(v.value) and self.is_name(v.slice):
                 return 'PYieldTarget' if _self_index(v.value) == 'by_target' else 'PYieldClass'
+            al = self.alts(v)
+            if al is not None:
+                # yield from (A or B): A when it is truthy, else B
+                acc = self.yield_get(al[-1], w)
+                for a in reversed(al[:-1]):
+                    acc = f'(PIf {self.ne(a)} {self.under(a, lambda a=a: self.yield_get(a, w))} {acc})'
+                return acc
             raise TranslateError(f'{w}: unrecognised `yield from` {ast.unparse(v)}')
         if isinstance(st, ast.If):
+            t = st.test
+            neg = False
+            while isinstance(t, ast.UnaryOp) and isinstance(t.op, ast.Not):
+                t, neg = t.operand, not neg
+            # `x is None` / `x is not None` on a plain lookup: the key is absent / present
+            if isinstance(t, ast.Compare) and len(t.ops) == 1 and isinstance(t.ops[0], (ast.Is, ast.IsNot)) \
+                    and isinstance(t.comparators[0], ast.Constant) and t.comparators[0].value is None and self.atom(t.left) is not None:
+                a = self.atom(t.left)
+                if a[1]:
+                    raise TranslateError(f'{w}: `is None` test of a lookup with a default')
+                present, absent = (st.orelse, st.body) if isinstance(t.ops[0], ast.Is) != neg else (st.body, st.orelse)
+                yes = self.under(a, lambda: self.block(present))
+                no = self.under(None, lambda: self.block(absent))
+                return f'(PIf {"CInTarget" if a[0] == "t" else "CInClass"} {yes} {no})'
+            # truthiness of a plain lookup / an `or` chain of them: some set has a member
+            al = self.alts(t)
+            if al is not None:
+                body, orelse = (st.orelse, st.body) if neg else (st.body, st.orelse)
+                acc = self.under(None, lambda: self.block(orelse))
+                for a in reversed(al):
+                    acc = f'(PIf {self.ne(a)} {self.under(a, lambda: self.block(body))} {acc})'
+                return acc
             t = st.test
             if isinstance(t, ast.Compare) and len(t.ops) == 1 and isinstance(t.ops[0], ast.In) and self.is_name(t.left):
                 coll, _ = _maybe_copy(t.comparators[0])
@@ -319,6 +420,8 @@ class _SearchTr:
                     and all(isinstance(x, ast.Name) for x in st.target.elts)):
                 raise TranslateError(f'{w}: unrecognised loop target')
             kv, sv = (x.id for x in st.target.elts)   # type: ignore[union-attr]
+            if kv in self.locals or sv in self.locals:
+                raise TranslateError(f'{w}: the scan loop re-binds a local that holds a lookup')
             if len(st.body) != 1 or not isinstance(st.body[0], ast.If) or st.body[0].orelse:
                 raise TranslateError(f'{w}: scan loop body is not a single `if`')
             inner = st.body[0]
@@ -416,8 +519,8 @@ def _search_shape(fn: ast.FunctionDef) -> tuple[str, dict]:
         else:
             raise TranslateError(f'{where}: unrecognised assignment to {nv} in the wildcard branch')
     tr = _SearchTr(nv, where)
-    star = tr.block(star_body)
-    exact = tr.block(list(st.orelse))
+    star = tr.under(None, lambda: tr.block(star_body, True))
+    exact = tr.under(None, lambda: tr.block(list(st.orelse), True))
     b = lambda x: 'true' if x else 'false'   # noqa: E731
     coq = (f'Definition gen_search_shape : search_shape :=\n  SearchShape {b(empty_returns)} {b(folds)} {b(strips)}\n'
            f'    {star}\n    {exact}.\n'
@@ -739,6 +842,11 @@ class _MaintTr:
                 return 'MCInEnts' if isinstance(op, ast.In) else '(MCNot MCInEnts)'
             if isinstance(op, (ast.Is, ast.IsNot)) and ((_is_self(a) and _self_map_attr(b, 'spawn')) or (_is_self(b) and _self_map_attr(a, 'spawn'))):
                 return 'MCIsSpawn' if isinstance(op, ast.Is) else '(MCNot MCIsSpawn)'
+        if isinstance(e, ast.Attribute) and _is_self(e.value) and e.attr not in ('map', '_keys') and e.attr.isascii():
+            # round 5: a flag kept on the entity object (`self._in_map`).  The model has no such state: the condition is
+            # translated to [MCCached], which no fact of the path obligations decides (cond_abs = None), so the program
+            # passes only if nothing depends on the flag; the state census `prog_stateless` names the shape
+            return f'(MCCached {_coq_str(e.attr)})'
         raise TranslateError(f'{w}: unrecognised condition {ast.unparse(e)}')
 
     def key(self, e: ast.expr, target: bool, w: str) -> str:
